@@ -8,7 +8,8 @@ import DhcpProofs.Lemmas.V6Build
     unchecked assertions of the accessors (`opt.(*optClientID)`,
     `o.(*OptIANA)`, `o.(*OptIAAddress)`, `opt17.(*OptVendorOpts)` …) succeed;
   * relay headers carry 16-byte link and peer addresses and one of the two
-    relay types, non-relay messages any other type.
+    relay types, non-relay messages any other type;
+  * an embedded DHCPv4 message (option 87) was accepted by the DHCPv4 decoder.
   Proved from the declarative grammar `PMsg` (`dec6 b = ok m ↔ PMsg b m`, C05)
   by recursion on the derivation; no side condition (unlike `WFMsg`, which
   needs `FitsLen` for embedded DHCPv4 messages).
@@ -20,6 +21,7 @@ mutual
 /-- shape of one decoded option -/
 def DecOpt : Opt6 → Prop
   | .generic c _ => c ∉ knownCodes
+  | .dhcpv4Msg p => ∃ v, V4.dec4 v = .ok p
   | .relayMsg m => DecMsg m
   | .iana _ _ _ os => DecOpts os
   | .iata _ os => DecOpts os
@@ -50,11 +52,12 @@ theorem DecOpts.mem {os : List Opt6} (h : DecOpts os) {o : Opt6} (ho : o ∈ os)
 only for a code outside the table -/
 theorem decOpt_of_leaf {c : Nat} {v : Bytes} {o : Opt6} (hc : c < 65536) (hcc : c ∉ containerCodes)
     (h : decSimple c v = .ok o) : DecOpt o := by
-  rcases leaf_inv c v o hc hcc h with ⟨hw, _, hs, _⟩ | ⟨p, rfl, _⟩
-  · cases o <;> simp only [DecOpt] <;> first | trivial | (simp [isSimple] at hs) | skip
-    simp only [WFOpt] at hw
-    exact hw.2
-  · simp only [DecOpt]
+  rcases leaf_inv c v o hc hcc h with ⟨hw, _, hs, hn4⟩ | ⟨p, rfl, hp⟩
+  · cases o <;> simp only [DecOpt] <;> first | trivial | (simp [isSimple] at hs; done) | skip
+    · exact absurd rfl (hn4 _)
+    · simp only [WFOpt] at hw
+      exact hw.2
+  · simp only [DecOpt]; exact ⟨v, hp⟩
 
 mutual
 theorem decOpt_of_POpt : {c : Nat} → {v : Bytes} → {o : Opt6} → POpt c v o → c < 65536 → DecOpt o
